@@ -37,11 +37,21 @@ class Filter {
   }
 
   template <typename TKey>
-  Filter operator[](const TKey& key) const {
+  detail::enable_if_t<!detail::is_integral<TKey>::value, Filter> operator[](
+      const TKey& key) const {
     if (variant_ == true)  // "true" means "allow recursively"
       return *this;
     JsonVariantConst member = variant_[key];
     return Filter(member.isNull() ? variant_["*"] : member);
+  }
+
+  // the wildcard "*" stands for object members only, not for array elements
+  template <typename TIndex>
+  detail::enable_if_t<detail::is_integral<TIndex>::value, Filter> operator[](
+      TIndex index) const {
+    if (variant_ == true)  // "true" means "allow recursively"
+      return *this;
+    return Filter(variant_[index]);
   }
 
  private:
